@@ -502,21 +502,43 @@ async fn run_phase_sqlite(store: Arc<dyn SessionStorageBackend>, phase: &Phase, 
     }
     drop(done_tx);
     let mut remaining: Vec<usize> = phase.tasks.iter().map(|t| t.len()).collect();
-    // Operations are released ONE AT A TIME, in an order the tape decides, and the next one is
-    // released only after the previous one has returned. sqlx's SQLite worker is a real OS
-    // thread: whether its answer is already there at the first poll of a statement depends on
-    // machine load, and with two operations in flight that race decides who queues first for the
-    // single connection. (Measured: two-at-a-time release gave 233/320 identical logs under
-    // load as soon as one operation consisted of two statements.) Serial release makes the main
-    // thread and the worker alternate strictly, so a run replays exactly; the price is that
-    // statement-level interleavings inside a multi-statement operation are not explored here —
-    // the memory arm explores lock-level interleavings instead.
+    // Operations are released in batches (at most one per task). Every SQL statement they issue
+    // stops at the turnstile inside `sqlite3_step` (see gate.rs) until the simulator lets it go:
+    // the simulator waits until the system is QUIESCENT — every operation in flight is either
+    // parked at the turnstile or finished — and only then lets the tape pick ONE of the parked
+    // statements (ordered by their expanded SQL text, which is unique per operation, so the
+    // choice does not depend on which worker thread serves which task). Nothing advances between
+    // two such decisions except the one granted statement, so the run is a pure function of the
+    // tape although sqlx's workers are real OS threads.
     loop {
         let cands: Vec<usize> = (0..n).filter(|i| remaining[*i] > 0).collect();
         if cands.is_empty() {
             break;
         }
-        let batch: Vec<usize> = vec![cands[tape.choose(cands.len() as u32) as usize]];
+        let mut batch: Vec<usize> = cands.iter().copied().filter(|_| tape.chance(1, 2)).collect();
+        if batch.is_empty() {
+            batch.push(cands[tape.choose(cands.len() as u32) as usize]);
+        }
+        if batch.len() > 1 && tape.chance(1, 2) {
+            batch.reverse();
+        }
+        // Two tasks issuing the very same operation (same kind, same arguments) would park two
+        // identical statements at the turnstile; which task owns which is not observable, so one
+        // of them waits for the next batch.
+        {
+            let mut seen: Vec<&Op> = Vec::new();
+            batch.retain(|i| {
+                let op = &phase.tasks[*i][phase.tasks[*i].len() - remaining[*i]];
+                // (two renames onto the same id start with the same clean-up statement)
+                let same_target = matches!(op, Op::ChangeId { new, .. } if seen.iter().any(|o| matches!(o, Op::ChangeId { new: n2, .. } if n2 == new)));
+                if seen.contains(&op) || same_target {
+                    false
+                } else {
+                    seen.push(op);
+                    true
+                }
+            });
+        }
         for i in &batch {
             let idx = phase.tasks[*i].len() - remaining[*i];
             remaining[*i] -= 1;
@@ -529,9 +551,64 @@ async fn run_phase_sqlite(store: Arc<dyn SessionStorageBackend>, phase: &Phase, 
             };
             let _ = gates[*i].send(q);
         }
-        for _ in 0..batch.len() {
-            if done_rx.recv().await.is_none() {
-                break;
+        let mut done = 0usize;
+        let mut spins = 0u64;
+        loop {
+            while let Ok(_i) = done_rx.try_recv() {
+                done += 1;
+            }
+            if done == batch.len() {
+                // every operation has returned; a dropped transaction may still owe its ROLLBACK
+                let snap = crate::gate::snapshot();
+                if snap.moving == 0 && snap.orphan_transactions == 0 && snap.lock_waiting == 0 {
+                    if snap.parked.is_empty() {
+                        break;
+                    }
+                    let k = tape.choose(snap.parked.len() as u32) as usize;
+                    sh.borrow_mut().log.sched(format_args!("grant (background) {}", snap.parked[k].chars().take(40).collect::<String>()));
+                    crate::gate::grant_and_wait(&snap.parked[k]);
+                } else {
+                    tokio::task::yield_now().await;
+                }
+                continue;
+            }
+            let snap = crate::gate::snapshot();
+            let (waiting, running, lock_waiting) = (snap.parked, snap.moving, snap.lock_waiting);
+            // a ROLLBACK is the only statement no operation waits for (a transaction dropped on an
+            // error path): it is scheduled like any other statement but does not count as an
+            // operation in flight
+            let op_statements = waiting.iter().filter(|w| w.as_str() != "ROLLBACK").count();
+            if running == 0 && waiting.is_empty() && lock_waiting > 0 && snap.orphan_transactions == 0 && lock_waiting as usize + done == batch.len() {
+                let log = sh.borrow().log.lines.join("\n");
+                simcore::driver::harness_error(&format!("storesim(sqlite): every operation in flight is asleep on a lock (deadlock inside the store) lock_waiting={lock_waiting} done={done}/{}\n{log}", batch.len()));
+            }
+            if running == 0 && snap.orphan_transactions == 0 && !waiting.is_empty() && op_statements + lock_waiting as usize + done == batch.len() {
+                let k = tape.choose(waiting.len() as u32) as usize;
+                {
+                    let mut s = sh.borrow_mut();
+                    let w = &waiting[k];
+                    let head: String = w.chars().take(40).collect();
+                    s.log.sched(format_args!("grant [{}/{}] {}… #{:08x}", k, waiting.len(), head, simcore::fnv(w.as_bytes()) as u32));
+                }
+                // Textually identical statements parked by different operations (two transactions
+                // both about to BEGIN) cannot be told apart — which worker thread serves which task
+                // is not observable — so they are released together, one after the other: whatever
+                // the order, the same set of operations has advanced by the next decision.
+                let dup = waiting.iter().filter(|w| **w == waiting[k]).count();
+                for _ in 0..dup {
+                    crate::gate::grant_and_wait(&waiting[k]);
+                }
+                spins = 0;
+            } else {
+                spins += 1;
+                if spins > 400_000 {
+                    let log = sh.borrow().log.lines.join("\n");
+                    simcore::driver::harness_error(&format!("storesim(sqlite): the system never became quiescent: parked={waiting:?} running={running} lock_waiting={lock_waiting} done={done}/{}\n{log}", batch.len()));
+                }
+                tokio::task::yield_now().await;
+                if spins % 64 == 0 {
+                    std::thread::sleep(std::time::Duration::from_micros(20));
+                }
             }
         }
     }
@@ -550,7 +627,7 @@ pub fn execute(script: &Script, tape: &mut Tape, keep_log: bool) -> RunOut {
     let t0 = seams::EPOCH_S * 1_000_000_000;
     seams::set_clock_ns(t0, 0);
     seams::reset_clock_reads();
-    let sh = Rc::new(RefCell::new(Shared { seq: 0, events: Vec::new(), log: EventLog::new(keep_log) }));
+    let sh = Rc::new(RefCell::new(Shared { seq: 0, events: Vec::new(), log: EventLog::new(keep_log || std::env::var("VERIF_KEEP_LOG").is_ok()) }));
     let sqlite = script.backend == "sqlite";
     let mut counters: BTreeMap<String, u64> = BTreeMap::new();
     let mut violations: Vec<Violation> = Vec::new();
@@ -685,7 +762,8 @@ pub fn execute(script: &Script, tape: &mut Tape, keep_log: bool) -> RunOut {
         let sh2 = sh.clone();
         local.block_on(&rt, async {
             use sqlx::sqlite::SqlitePoolOptions;
-            let pool = match SqlitePoolOptions::new().max_connections(1).connect("sqlite::memory:").await {
+            // one shared in-memory database, one connection (= one sqlx worker thread) per task
+            let pool = match SqlitePoolOptions::new().max_connections(3).min_connections(0).connect("sqlite::memory:").await {
                 Ok(p) => p,
                 Err(e) => simcore::driver::harness_error(&format!("cannot open sqlite::memory: {e}")),
             };
@@ -693,6 +771,25 @@ pub fn execute(script: &Script, tape: &mut Tape, keep_log: bool) -> RunOut {
             if let Err(e) = st.migrate().await {
                 simcore::driver::harness_error(&format!("sqlite migration failed: {e}"));
             }
+            {
+                // open all connections now, before statements start stopping at the turnstile
+                let mut held = Vec::new();
+                for _ in 0..3 {
+                    match pool.acquire().await {
+                        Ok(c) => held.push(c),
+                        Err(e) => simcore::driver::harness_error(&format!("cannot open a pooled connection: {e}")),
+                    }
+                }
+                // all three see the table created above?
+                for c in held.iter_mut() {
+                    use sqlx::Executor as _;
+                    if let Err(e) = c.execute("SELECT count(*) FROM sessions").await {
+                        simcore::driver::harness_error(&format!("pooled connections do not share the in-memory database: {e}"));
+                    }
+                }
+            }
+            tokio::task::yield_now().await;
+            crate::gate::enable(true);
             let store: Arc<dyn SessionStorageBackend> = Arc::new(st);
             for (pi, phase) in phases.iter().enumerate() {
                 seams::advance_clock_ns(phase.advance_ms * 1_000_000);
@@ -704,6 +801,7 @@ pub fn execute(script: &Script, tape: &mut Tape, keep_log: bool) -> RunOut {
                     break;
                 }
             }
+            crate::gate::enable(false);
             drop(store);
             pool.close().await;
         });
@@ -729,6 +827,7 @@ pub fn execute(script: &Script, tape: &mut Tape, keep_log: bool) -> RunOut {
         out.count("fault_clock_jump_back", 1);
     }
     out.count(if sqlite { "runs_sqlite" } else { "runs_memory" }, 1);
+    out.count("sqlite_statements_scheduled", crate::gate::GATED.swap(0, std::sync::atomic::Ordering::Relaxed));
     out.nontrivial = script.phases.iter().map(|p| p.tasks.iter().map(|t| t.len()).sum::<usize>()).sum::<usize>() >= 2;
     out
 }
@@ -780,7 +879,7 @@ impl Sim for StoreSim {
                 "create on a live id: the return value is unconstrained (memory answers DuplicateId, SQLite answers Ok without writing; an upstream test pins the latter)".into(),
                 "change_id with an absent old id AND a live new id may answer either error".into(),
                 "sqlite arm: all instants and TTLs are whole seconds, so the store's whole-second deadlines introduce no rounding ambiguity".into(),
-                "sqlx's worker thread is real: sqlite operations are released one at a time (tape-chosen order across tasks), so the sqlite arm checks the sequential map-with-expiry semantics under every interleaving of whole operations, not statement-level interleavings inside an operation; determinism is verified by the double-run diff".into(),
+                "sqlx's worker threads are real OS threads; every SQL statement stops at a link-time turnstile in sqlite3_step and is released by the tape only when the system is quiescent, so statement-level interleavings are explored and replay exactly (verified by the double-run diff); only the first step of a statement is a scheduling point".into(),
             ],
             fault_counters: vec!["fault_clock_jump_back".into()],
             expected_probes: vec!["op_exactly_at_deadline".into(), "op_on_expired_record".into(), "runs_with_overlapping_operations".into(), "lock_contended".into(), "phase_with_several_possible_outcomes".into(), "runs_sqlite".into(), "runs_memory".into()],
